@@ -11,7 +11,7 @@ BASE = 1600000000 * 10**9
 TIMES = [BASE, BASE + 1, BASE + 2, BASE - 1, BASE + 10**9, BASE - 10**9, BASE + 5, BASE + 1000]
 NAMES = ["a", "b", "B", "a.txt", "a-b", "d1", "d2", "src", "out", "x.go", "y.go", "z", "lib", "c",
          "app", "app.go", "application", "build", "build-tools", "out.d",
-         "out1.bin", "notes.txt", "notes.txt ", " lead", "drafts ", "q?"]      # glob metacharacters and surrounding blanks are ordinary name characters      # names that are string prefixes of their siblings
+         "out1.bin", "notes.txt", "notes.txt ", " lead", "drafts ", "q?", "gen", "gen-1.src", "gen[1].src", "-1.src", "[1].src", "release notes.md"]      # glob metacharacters and surrounding blanks are ordinary name characters      # names that are string prefixes of their siblings
 
 
 def gen_tree(rng, depth, maxdepth):
@@ -171,6 +171,14 @@ def gen_case(rng, root, i):
                 return rng.choice(["*", "*/*", "d?", "*.go", "*/*.go", "[ab]*", "src/*", "d1/*"])
             if r < 0.5:
                 return rng.choice(["nomatch*", "[", "zz/*"])
+            if r < 0.7:
+                # backslash ESCAPES (filepath.Match: '\\c' matches the character c): the literal spelling of a name with
+                # metacharacters, and needless escapes of ordinary characters - with and without a separator in the pattern
+                q = rng.choice(paths)
+                if rng.random() < 0.6:
+                    q = q.rsplit("/", 1)[-1] if rng.random() < 0.7 else q
+                special = "".join(("\\" + ch) if (ch in "*?[]\\-" or (ch not in "/" and rng.random() < 0.25)) else ch for ch in q)
+                return special
             return rng.choice(paths)
         sources = [pick_glob() for _ in range(rng.choice([1, 1, 2, 3]))]
     else:
